@@ -368,6 +368,9 @@ type History struct {
 	inWindow      bool
 	// deletes that ran while a snapshot was in flight: targets and range
 	windowDeletes []windowDelete
+	// Epilogue, when set, runs after the last operation on the still open
+	// store (before the final restart checks).
+	Epilogue func(h *History)
 	// stop is set when a listed known finding made store and model diverge:
 	// the rest of the run would only report its consequences.
 	stop bool
@@ -398,6 +401,9 @@ func (h *History) siteOf(mm *Mismatch) string {
 	}
 	return ""
 }
+
+// ShardID returns the store id of the i-th shard of the history.
+func (h *History) ShardID(i int) uint64 { return uint64(i + 1) }
 
 func (h *History) shardID(i int) uint64 { return uint64(i + 1) }
 
@@ -495,6 +501,9 @@ func (h *History) Exec() {
 		if !h.stop {
 			h.check(i, o)
 		}
+	}
+	if !run.Failed() && !h.stop && h.Epilogue != nil {
+		h.Epilogue(h)
 	}
 	if !run.Failed() && !h.stop {
 		h.finalChecks()
